@@ -499,6 +499,12 @@ def run_partials(case, acc):
                     return
                 got_raw = entry.get('uncovered_nz')
                 got = set((int(a), int(c)) for a, c in got_raw) if got_raw is not None else None
+                # the list is what the report counts ("Sparsity excludes N entries"): an entry listed twice
+                # (once per step of a step list, or left over from an earlier check) is not "exactly the set"
+                if got is not None and len(list(got_raw)) != len(got):
+                    rep.viol('%s:uncovered_nz:duplicate-entries' % st,
+                             '%d entries listed, %d distinct: %s' %
+                             (len(list(got_raw)), len(got), sorted((int(a), int(c)) for a, c in got_raw)))
                 if exp:
                     acc.count('obs:uncovered-expected')
                     acc.count('cell:under-declared/%s' % st)
